@@ -128,7 +128,7 @@ def run(ctx, only=None):
 
 def search(ctx, result):
     r = merge([run_cases("C09cs", chart_cases(ctx, 800), C_IN, PARSE_OUT, C_VERDICT, C_SPEC, shard_size=25),
-               run_cases("C09ls", line_cases(ctx, 9000), lg.DEC_IN, lg.DEC_OUT, lg.DEC_VERDICT, lg.DEC_SPEC, shard_size=400)])
+               run_cases("C09ls", [lg.dec_case(k, w, ["regex_diff_witness"]) for w in regex_witnesses() for k in KS] + line_cases(ctx, 9000), lg.DEC_IN, lg.DEC_OUT, lg.DEC_VERDICT, lg.DEC_SPEC, shard_size=400)])
     return dict(viol=r["viol"], evaluations=r["evaluations"], note="re-sampled %d cases" % r["evaluations"])
 
 
